@@ -20,6 +20,7 @@ import numpy as np
 from harness import common
 from harness import c18_inline as INL
 from harness import c18_lits as LITS
+from harness import c18_modops as MO
 from harness import c18_sharing as SH
 from harness import c18_traces as TR
 from harness import c18_trees as T
@@ -275,7 +276,7 @@ def _parse_bools(s):
 
 # ----------------------------------------------------------------------------- models B/C: traces
 
-REQ_T = ["OV.Graph.Syntax", "OV.Graph.Sem", "OV.Graph.Wf", "OV.Builder.Strings", "OV.Builder.Naming", "OV.Builder.Trace", "OV.Builder.TraceCF", "OV.Builder.TraceNames"]
+REQ_T = ["OV.Graph.Syntax", "OV.Graph.Sem", "OV.Graph.Wf", "OV.Builder.Strings", "OV.Builder.Naming", "OV.Builder.Trace", "OV.Builder.TraceCF", "OV.Builder.TraceNames", "OV.Builder.SemX", "OV.Builder.TraceCFX"]
 
 K_REDEF = "C18:names:subgraph-value-redefines-outer-name"
 K_DISJ = "C18:names:disjoint-subgraphs-share-value-names"
@@ -312,6 +313,7 @@ def _trace_stats(steps, acc, depth=0):
                 acc["if"] += 1
             if s["op"] == "Loop":
                 acc["loop"] += 1
+                acc["scanout"] += bool(s.get("nscan"))
             if s["op"] == "Scan":
                 acc["scan"] += 1
             if s.get("vlit"):
@@ -331,7 +333,7 @@ def _trace_stats(steps, acc, depth=0):
 
 
 def _new_stats():
-    return {"steps": 0, "depth": 0, "fn": 0, "if": 0, "loop": 0, "scan": 0, "hetero_lit": 0, "homo_lit": 0, "named": 0, "lits": 0,
+    return {"steps": 0, "depth": 0, "fn": 0, "if": 0, "loop": 0, "scan": 0, "scanout": 0, "hetero_lit": 0, "homo_lit": 0, "named": 0, "lits": 0,
             "castlike": 0, "ops": set()}
 
 
@@ -341,7 +343,7 @@ def run_traces(ctx, bcfg):
     rng = ctx.rng
     n = 200 if ctx.tier == "quick" else 2500
     bc = "bcfg_fixed" if bcfg["shared_counter"] else "bcfg_pinned"
-    coq_cases, coq_meta, wf_meta, dup_info, toy_expected, hyp_meta = [], [], [], [], [], []
+    coq_cases, coq_meta, wf_meta, dup_info, toy_expected, hyp_meta, scan_meta = [], [], [], [], [], [], []
     tot = _new_stats()
     cnt = {"traces": 0, "models": 0, "with_sub": 0, "with_fn": 0, "redefines": 0, "disjoint": 0, "ort_runs": 0,
            "node_names_repeated_across_graphs": 0, "inline_vs_call": 0}
@@ -360,14 +362,14 @@ def run_traces(ctx, bcfg):
             cnt["models"] += 1
             st = _trace_stats(info["steps"], _new_stats())
             if mode == "call":
-                for k in ("steps", "fn", "if", "loop", "scan", "hetero_lit", "homo_lit", "named", "lits", "castlike"):
+                for k in ("steps", "fn", "if", "loop", "scan", "scanout", "hetero_lit", "homo_lit", "named", "lits", "castlike"):
                     tot[k] += st[k]
                 tot["depth"] = max(tot["depth"], st["depth"])
                 tot["ops"] |= st["ops"]
                 cnt["traces"] += 1
                 cnt["with_sub"] += bool(st["if"] or st["loop"] or st["scan"])
                 cnt["with_fn"] += bool(st["fn"])
-            ctx.case(("trace", mode, min(st["steps"], 20) // 4, st["depth"], bool(st["if"]), bool(st["loop"]), bool(st["scan"]),
+            ctx.case(("trace", mode, min(st["steps"], 20) // 4, st["depth"], bool(st["if"]), bool(st["loop"]), bool(st["scan"]), bool(st["scanout"]),
                       bool(st["hetero_lit"]), bool(st["homo_lit"]), bool(st["fn"]),
                       bool(st["named"]), bool(st["castlike"]), bool(st["lits"])))
             if t == 0 and mode == "call":
@@ -388,6 +390,11 @@ def run_traces(ctx, bcfg):
             nn = TR.node_names_creation_order(proto.graph)
             if len(set(nn)) != len(nn):
                 cnt["node_names_repeated_across_graphs"] += 1
+                if bcfg["shared_counter"] and mode == "call":
+                    # C18_node_names_unique_across_subgraphs_fixed: impossible for the model of the shared counter
+                    dupn = sorted({x for x in nn if nn.count(x) > 1})
+                    ctx.violation("C18:names:node-name-defined-in-two-graphs", f"trace {t} ({mode}): node names {dupn[:3]} are used in two graphs of the model",
+                                  dict(replay_doc, dup=dupn[:5]))
             # ---- validity
             bad_names = bool(rep["redefines_visible"] or rep["same_graph_dups"])
             try:
@@ -405,7 +412,8 @@ def run_traces(ctx, bcfg):
                 coq_meta.append((t, mode))
                 toy = TR.toy_replay(tr, info)
                 toy_expected.append(toy)
-                hyp_meta.append((t, mode, bool(st["scan"]), bool(st["if"] or st["loop"]), bool(st["castlike"]), bool(dup_cross or rep["same_graph_dups"])))
+                hyp_meta.append((t, mode, bool(st["scan"] or st["scanout"]), bool(st["if"] or st["loop"]), bool(st["castlike"]), bool(dup_cross or rep["same_graph_dups"])))
+                scan_meta.append((bool(st["scan"]), bool(st["scanout"])))
                 dup_info.append((t, mode, rep, dict(replay_doc)) if dup_cross else None)
             # ---- semantics: onnxruntime (no optimisation) against the NumPy reading, on objects (duplicates renamed apart)
             if dup_cross or rep["same_graph_dups"]:
@@ -452,13 +460,16 @@ def run_traces(ctx, bcfg):
                       f"Eval vm_compute in (map (tcase_hyps {bc}) cases).\n"
                       "Eval vm_compute in (map (fun c : tcase => let '(ins, tr, _, _, _) := c in (plain_trace tr, user_okb ins tr)) cases).\n"
                       f"Definition expected : list (option (list Z)) := {clist(toy_expected[a:a + shard], lambda x: 'None' if x is None else '(Some ' + clist(x, common.cz) + ')')}.\n"
-                      f"Eval vm_compute in (toy_disagreeing {bc} 0 (map (fun p => toy_of (fst p) (snd p)) (combine cases expected))).\n")
+                      f"Eval vm_compute in (toy_disagreeing {bc} 0 (map (fun p => toy_of (fst p) (snd p)) (combine cases expected))).\n"
+                      f"Eval vm_compute in (toy_disagreeing_x {bc} 0 (map (fun p => toy_of (fst p) (snd p)) (combine cases expected))).\n"
+                      f"Eval vm_compute in (map (tcase_hyps_x {bc}) cases).\n")
     res = ctx.coq_eval_shards(REQ_T, bodies, par=4)
-    disagree, wf_bad, toy_bad, hyp_bad = [], [], [], []
+    disagree, wf_bad, toy_bad, hyp_bad, toyx_bad, hypx_bad = [], [], [], [], [], []
+    hypx_cnt = {"hold": 0, "hold_scan": 0, "hold_scanout": 0, "read": 0, "read_scan": 0, "read_scanout": 0}
     fix_cnt, fix_bad = {"plain": 0, "user_ok": 0, "both": 0}, []
     hyp_cnt = {"hold": 0, "hold_cf": 0, "hold_castlike": 0, "toy_read": 0, "toy_read_cf": 0}
     for k, (okc, vals, raw) in enumerate(res):
-        if not okc or len(vals) < 5:
+        if not okc or len(vals) < 7:
             ctx.tie_broken("correspondence", "modelBC:evaluation", raw[-1500:])
             continue
         dis = set(common.parse_nat_list(vals[0]))
@@ -490,7 +501,23 @@ def run_traces(ctx, bcfg):
             if toy_expected[k * shard + j] is not None:
                 hyp_cnt["toy_read"] += 1
                 hyp_cnt["toy_read_cf"] += cfl
-        toy_bad += [coq_meta[k * shard + j] for j in common.parse_nat_list(vals[4])]
+        # the If/Loop-only reading (shared evaluator OV.Graph.Sem) has no Scan / scan outputs: compared on the other traces
+        toy_bad += [coq_meta[k * shard + j] for j in common.parse_nat_list(vals[4]) if not hyp_meta[k * shard + j][2]]
+        # the reading of every control-flow operator (TraceCFX.creplay_x / SemX.eval_graph_x): compared on every trace
+        toyx_bad += [coq_meta[k * shard + j] for j in common.parse_nat_list(vals[5])]
+        for j, b in enumerate(_parse_bools(vals[6])):
+            t, mode, _sc, cfl, castl, dups = hyp_meta[k * shard + j]
+            sc, so = scan_meta[k * shard + j]
+            if b:
+                hypx_cnt["hold"] += 1
+                hypx_cnt["hold_scan"] += sc
+                hypx_cnt["hold_scanout"] += so
+            elif mode == "call" and not dups:
+                hypx_bad.append((t, mode))
+            if toy_expected[k * shard + j] is not None:
+                hypx_cnt["read"] += 1
+                hypx_cnt["read_scan"] += sc
+                hypx_cnt["read_scanout"] += so
         # hypotheses of C18_names_unique_across_subgraphs_fixed, on the trace alone
         pairs = [x.strip().strip("()").split(",") for x in vals[3].strip().strip("[]").split(";")] if vals[3].strip() not in ("[]", "nil") else []
         for j, pr in enumerate(pairs):
@@ -547,6 +574,32 @@ def run_traces(ctx, bcfg):
     ctx.obligation("correspondence C: TraceCF.creplay (toy kernels over Z) = the harness's own reading of every trace, and = eval_graph on the graph the real "
                    "GraphBuilder built", not toy_bad, f"{len(toy_bad)} disagreements")
     ctx.obligation("hypotheses of C18_build_computes_trace_cf_eq_checked (cf_hyps_eqb) hold on every call-mode trace without Scan", not hyp_bad)
+    for (t, mode) in toyx_bad[:5]:
+        why = ""
+        try:
+            idx = coq_meta.index((t, mode))
+            okc, vals, raw = ctx.coq_eval(REQ_T, f"Definition c : tcase := {coq_cases[idx]}.\n"
+                                          f"Eval vm_compute in (let '(ins, tr, outs, g, _) := c in "
+                                          "(creplay_x Z toy_sem toy_truth toy_trip Z.of_nat toy_of_bool 5 toy_stack toy_unstack toy_lit 3 tr (toy_args ins) outs, "
+                                          "eval_graph_x Z toy_sem toy_truth toy_trip Z.of_nat toy_of_bool 5 toy_stack toy_unstack 4 "
+                                          f"(toy_init (b_cache (fst (build_state {bc} ins tr)))) g (toy_args ins))).\n")
+            why = f" (creplay_x, eval_graph_x) = {vals[0][:300] if okc and vals else raw[-300:]}; harness reading {toy_expected[idx]};"
+        except Exception as e:  # noqa: BLE001
+            why = f" ({e})"
+        ctx.tie_broken("correspondence", "modelC:reading-x", why + f" trace {t} ({mode}): TraceCFX.creplay_x (If / Loop with scan outputs / Scan) under the toy kernels "
+                       "differs from the harness's reading of the trace, or SemX.eval_graph_x on the real graph differs from creplay_x")
+    for (t, mode) in hypx_bad[:5]:
+        ctx.tie_broken("correspondence", "modelC:hypotheses-x", f"trace {t} ({mode}): cfx_hypsb (hypotheses of C18_build_computes_trace_cfx_checked) is false on a "
+                       "call-mode trace whose real graph has pairwise distinct names")
+    ctx.obligation("correspondence C (every control-flow operator): TraceCFX.creplay_x (toy kernels over Z, toy_stack / toy_unstack) = the harness's own "
+                   "reading of every trace incl. Loop scan outputs and Scan bodies, = SemX.eval_graph_x on the graph the real GraphBuilder built; "
+                   "where the hypotheses hold and the reading is undefined the evaluation fails too", not toyx_bad, f"{len(toyx_bad)} disagreements")
+    ctx.obligation("hypotheses of C18_build_computes_trace_cfx_checked (cfx_hypsb) hold on every call-mode trace (Scan and Loop scan outputs included)", not hypx_bad)
+    if hypx_cnt["hold_scan"] < 3 or hypx_cnt["hold_scanout"] < 3:
+        ctx.tie_broken("harness", "modelC:generator", f"too few traces with Scan bodies / Loop scan outputs satisfy the hypotheses of the theorem: {hypx_cnt}")
+    ctx.cover(traces_cfx_hypotheses_hold=hypx_cnt["hold"], traces_cfx_hypotheses_hold_with_scan=hypx_cnt["hold_scan"],
+              traces_cfx_hypotheses_hold_with_loop_scan_outputs=hypx_cnt["hold_scanout"], traces_toy_reading_x_defined=hypx_cnt["read"],
+              traces_toy_reading_x_defined_with_scan=hypx_cnt["read_scan"], traces_toy_reading_x_defined_with_loop_scan_outputs=hypx_cnt["read_scanout"])
     for (t, mode, why) in fix_bad[:5]:
         ctx.tie_broken("correspondence", "modelB:user-names", f"trace {t} ({mode}): {why}")
     ctx.obligation("hypotheses of C18_names_unique_across_subgraphs_fixed (user_okb: the caller's names, read off the trace alone) hold on every generated "
@@ -556,7 +609,7 @@ def run_traces(ctx, bcfg):
               traces_cf_hypotheses_hold_with_castlike=hyp_cnt["hold_castlike"], traces_toy_reading_defined=hyp_cnt["toy_read"],
               traces_toy_reading_defined_with_if_or_loop=hyp_cnt["toy_read_cf"])
     ctx.cover(traces=cnt["traces"], models_built=cnt["models"], traces_with_subgraphs=cnt["with_sub"], traces_with_functions=cnt["with_fn"],
-              trace_steps=tot["steps"], trace_max_depth=tot["depth"], trace_ops=len(tot["ops"]), trace_if=tot["if"], trace_loop=tot["loop"], trace_scan=tot["scan"],
+              trace_steps=tot["steps"], trace_max_depth=tot["depth"], trace_ops=len(tot["ops"]), trace_if=tot["if"], trace_loop=tot["loop"], trace_scan=tot["scan"], trace_loop_with_scan_outputs=tot["scanout"],
               trace_steps_with_literals_in_heterogeneous_variadic=tot["hetero_lit"], trace_steps_with_literals_in_homogeneous_variadic=tot["homo_lit"],
               trace_fn_steps=tot["fn"], trace_explicit_outputs=tot["named"], trace_literals=tot["lits"], trace_castlike=tot["castlike"],
               traces_redefining_outer_name=cnt["redefines"], traces_disjoint_duplicates=cnt["disjoint"], ort_runs=cnt["ort_runs"],
@@ -669,7 +722,7 @@ def run(ctx):
                "(C12 owns literal promotion); the dtype knowledge of the builder (shape inference) is observed per value; nodes added by "
                "call_inline are observed (CRaw), not modelled; attribute order inside a node is not compared")
     ctx.assume("kernel semantics: onnxruntime CPU kernels with ORT_DISABLE_ALL against a hand-written NumPy reading of 62 operators, "
-               "If, Loop (no scan outputs), Scan and 6 script/IR functions, on 3 input sets per model; dtype and shape of every graph output "
+               "If, Loop (loop-carried values and scan outputs), Scan and 6 script/IR functions, on 3 input sets per model; dtype and shape of every graph output "
                "compared exactly, int/bool values exactly, float values rtol 2e-4 / atol 2e-5 x largest intermediate magnitude")
     ctx.assume("dtype of a Python literal operand in the NumPy reading: the dtype of the first tensor operand bound to the same schema type "
                "variable (homogeneous variadic inputs Max/Min/Sum/Mean/Concat included, at every position); the dtype of its own Python type "
@@ -679,12 +732,14 @@ def run(ctx):
     cfg = probe_cfg(ctx)
     run_trees(ctx, cfg)
     SH.run_sharing(ctx, cfg)
+    MO.run_modops(ctx, cfg)
     bcfg = probe_bcfg(ctx)
     replay_subgraph_witness(ctx, bcfg)
     run_traces(ctx, bcfg)
     run_inline_args(ctx)
     INL.run_inline(ctx)
     LITS.run_lits(ctx)
+    LITS.run_mixed_lists(ctx)
     ctx.cover(rule="B/C: random traces over 62 operators + If/Loop/Scan subgraph bodies (depth <= 2; Loop/Scan states given as tensors and as "
                    "Python literals int/float/bool/list at every position; literals at every position of Max/Min/Sum/Mean/Concat next to "
                    "float and int64 tensors) + op.call/op.call_inline of script and IR "
